@@ -2,8 +2,9 @@
 
 Observation: a recording wrapper on analyze_reachable_symbols captures, per analysis frame and statement, the union
 over all visits of the (symbol, defining statement) pairs in in_symbol_bits, and the symbols each statement defines.
-Oracles: (i) soundness — dynamic last-definition events of the reference executor (validated against CPython/node) on
-decision vectors with every loop taken 0 or 1 times; (ii) precision — a textbook reaching-definitions worklist solver
+Oracles: (i) soundness — dynamic last-definition events of the reference executor (validated against CPython / node; for
+PHP and Go against node on the JavaScript rendering of the same skeleton and decision vector) on decision vectors with
+every loop taken 0 or 1 times; frontends: Python, JavaScript, TypeScript, PHP, Go; (ii) precision — a textbook reaching-definitions worklist solver
 run on lian's own CFG with lian's own per-statement definition sets: equality on loop-free methods, containment
 (lian's set inside the may-reach solution) on methods with loops."""
 import json
@@ -17,7 +18,10 @@ from checks import c04
 
 PROP = "C06"
 BATCH = 40
-LANGS = ["python", "javascript"]
+LANGS = ["python", "javascript", "typescript", "php", "go"]
+# compensation switches of the reference executor per frontend (see checks/c04.py)
+VM_SWITCHES = {"typescript": ("expression-stmt-rows",)}
+N_PROGRAMS = {"python": (300, 4000), "javascript": (300, 4000), "typescript": (300, 3000), "php": (300, 3000), "go": (300, 3000)}
 KINDS = ("s", "if", "while", "for", "forin", "dowhile", "break", "continue", "return")
 LOOP_OPS = ("while_stmt", "for_stmt", "forin_stmt", "for_value_stmt", "dowhile_stmt")
 
@@ -88,18 +92,22 @@ def analyse_batch(job):
     sc = common.scratch()
     src_dir = os.path.join(sc, f"c06src_{tag}")
     os.makedirs(src_dir, exist_ok=True)
-    progs = []
-    for i, (label, body, domains) in enumerate(skels):
-        sk = gen_cf.Skel(body, domains, label)
-        rnd = gen_cf.DU_RENDERERS[lang]()
-        text = rnd.render(sk)
-        name = f"s{i:04d}.{rnd.ext}"
+    case_rp = None
+    if tag == "replay":
+        with open(os.environ["VERIF_REPLAY"]) as f:
+            case_rp = json.load(f)["case"]
+    if case_rp is not None and "args" in case_rp:
+        # a stored execution of a frontend whose ground truth comes from the JavaScript twin
+        progs = [(f"s0000.{gen_cf.DU_RENDERERS[lang].ext}", "replay", case_rp["src"], [(case_rp["args"], case_rp["gt_vector"])], case_rp["gt_src"])]
+    else:
+        progs = c04.build_programs(lang, skels, renderers=gen_cf.DU_RENDERERS, cap=32)
+    for name, label, text, runs, gt_text in progs:
         with open(os.path.join(src_dir, name), "w") as f:
             f.write(text)
-        rng = random.Random(zlib.crc32(f"{label}:{i}".encode()))
-        vecs = gen_cf.vectors(domains, 32, rng) if domains else [[]]
-        progs.append((name, sk, text, [rnd.conv_vector(v, sk) for v in vecs]))
-    st = lianrun.write_settings(os.path.join(sc, f"c06st_{tag}"), entry="- method_list: ['main']\n")
+    rcls = gen_cf.DU_RENDERERS[lang]
+    entry_name = getattr(rcls, "entry", "main")
+    ret_none = getattr(rcls, "ret_none", None)
+    st = lianrun.write_settings(os.path.join(sc, f"c06st_{tag}"), entry=f"- method_list: ['{entry_name}']\n")
     ws = os.path.join(sc, f"c06ws_{tag}")
     lianrun.run_lian(lianrun.lian_argv("semantic", lang, [src_dir], ws, st, ["-q"] + (["--enable-p2"] if enable_p2 else [])))
     wsd = lianrun.ws_dir(ws)
@@ -120,14 +128,20 @@ def analyse_batch(job):
     res = {"lang": lang, "p2": enable_p2, "fails": [], "recorder_calls": rec["calls"], "uses_checked": 0, "stmts_compared": 0,
            "loopfree_methods": 0, "loopy_methods": 0, "validated": 0, "unvalidated": 0, "programs": 0, "distinct_uses": 0,
            "methods_not_analysed": 0, "multi_visit_stmts": 0, "recorder_errors": rec.get("errors", [])[:3]}
-    for name, sk, text, vecs in progs:
+    node_gt = None
+    if lang != "python":
+        got = c04.node_ground_truth_batch([(gt_text, [g for _, g in runs]) for _, _, _, runs, gt_text in progs])
+        if got is not None:
+            node_gt = {name: g for (name, _, _, _, _), g in zip(progs, got)}
+    for name, label, text, runs, gt_text in progs:
         u = unit_of.get(name)
         rows = rows_by_unit.get(u)
         if rows is None:
             continue
         res["programs"] += 1
+        vecs = [g for _, g in runs]
         unit_probe = girvm.Unit(u, rows, lang)
-        mrow = next((r for r in rows if r.get("operation") == "method_decl" and r.get("name") == "main"), None)
+        mrow = next((r for r in rows if r.get("operation") == "method_decl" and r.get("name") == entry_name), None)
         if mrow is None:
             continue
         mid = mrow["stmt_id"]
@@ -140,7 +154,7 @@ def analyse_batch(job):
         loopy = n_loops > 0
         res["loopy_methods" if loopy else "loopfree_methods"] += 1
         g = cfg.get(mid, {})
-        case = {"lang": lang, "src": text, "label": sk.label, "enable_p2": enable_p2}
+        case = {"lang": lang, "src": text, "label": label, "enable_p2": enable_p2}
         # (ii) precision / exactness against the textbook solution on lian's own CFG and gen sets
         for phase, fr in frs:
             gen = {s: {sym for sym, _ in e["gen"]} for s, e in fr.items()}
@@ -168,28 +182,35 @@ def analyse_batch(job):
                                          f"{lang} stmt {s} ({op}): classical reaching definitions {sorted(missing)[:3]} absent from the in-set",
                                          dict(case, stmt=s)))
         # (i) soundness against dynamic last-definition events
-        gts = c04.py_ground_truth(text, vecs) if lang == "python" else c04.node_ground_truth(text, vecs)
+        if lang == "python":
+            gts = c04.py_ground_truth(text, vecs)
+        elif node_gt is not None:
+            gts = node_gt.get(name)
+        else:
+            gts = c04.node_ground_truth(gt_text, vecs)
         if gts is None:
             gts = [None] * len(vecs)
         seen_uses = set()
         reported = set()
-        for v, gt in zip(vecs, gts):
-            vm = girvm.VM([girvm.Unit(u, rows, lang)], lang, budget=20000, record_events=True)
+        for (args, v), gt in zip(runs, gts):
+            vm = girvm.VM([girvm.Unit(u, rows, lang)], lang, budget=20000, record_events=True, switches=VM_SWITCHES.get(lang, ()))
             status, ret = "ok", None
+            exec_case = dict(case, vector=v) if gt_text == text else dict(case, vector=v, args=args, gt_src=gt_text, gt_vector=v)
             try:
-                ret = vm.run_entry(vm.units[0], "main", [v])
+                ret = vm.run_entry(vm.units[0], entry_name, list(args))
             except girvm.GirThrow:
                 status = "throw"
             except girvm.VMError:
                 res["unvalidated"] += 1
                 continue
             outs = []
-            for o in vm.outputs:
+            for o in (vm.outputs if lang in ("python", "javascript", "typescript") else [(x,) for x in vm.raw_outputs]):
                 try:
                     outs.append(int(o[0]))
                 except Exception:
                     outs.append(o[0])
-            if gt is None or gt["status"] != status or gt["outputs"] != outs or (status == "ok" and gt["ret"] != ret):
+            if gt is None or gt["status"] != status or gt["outputs"] != outs or \
+               (status == "ok" and (ret_none if gt["ret"] is None else gt["ret"]) != ret):
                 res["unvalidated"] += 1
                 continue
             res["validated"] += 1
@@ -218,13 +239,17 @@ def analyse_batch(job):
                             if sig not in reported:
                                 reported.add(sig)
                                 res["fails"].append((sig, f"{lang} stmt {s} executes and reads {nm} but analyze_reachable_symbols never visited it",
-                                                     dict(case, vector=v, stmt=s)))
+                                                     dict(exec_case, stmt=s)))
                             continue
                         if not any(d == dstmt and n == nm for _, d, n in e["in"]):
                             op = unit_probe.row_by_id.get(s, {}).get("operation")
                             dop = unit_probe.row_by_id.get(dstmt, {}).get("operation")
                             def_in_loop = c04.enclosing_loop(unit_probe, dstmt, *parents(unit_probe, rows)) is not None or dop in LOOP_OPS
-                            if not def_in_loop:
+                            if redeclared_between(frm.trace, unit_probe.row_by_id, dstmt, s, nm):
+                                # the frontend emitted another variable_decl for a variable that is already declared (PHP: one in
+                                # front of every plain assignment); lian counts it as a definition, so it kills the real one
+                                sig = f"reaching-definition-missed:phase{phase}:definition-killed-by-redeclaration"
+                            elif not def_in_loop:
                                 sig = f"reaching-definition-missed:phase{phase}:definition-outside-any-loop"
                             else:
                                 sig = f"reaching-definition-missed:phase{phase}:definition-in-loop"
@@ -233,9 +258,31 @@ def analyse_batch(job):
                                 res["fails"].append((sig, f"{lang} stmt {s} ({op}) read {nm} last defined at {dstmt} ({dop}) in a real execution, "
                                                           f"but the in-set over all {e['visits']} visits has only definitions at "
                                                           f"{sorted(d for _, d, n in e['in'] if n == nm)}",
-                                                     dict(case, vector=v, stmt=s, name=nm, def_stmt=dstmt)))
+                                                     dict(exec_case, stmt=s, name=nm, def_stmt=dstmt)))
         res["distinct_uses"] += len(seen_uses)
+    import shutil
+    for d in (src_dir, ws, os.path.join(sc, f"c06st_{tag}")):
+        shutil.rmtree(d, ignore_errors=True)
     return res
+
+
+def redeclared_between(trace, row_by_id, dstmt, use_stmt, name):
+    """Did a variable_decl row for `name` execute between an execution of the definition dstmt and a later execution of
+    use_stmt with no other execution of dstmt in between?"""
+    for i, sid in enumerate(trace):
+        if sid != use_stmt:
+            continue
+        seen_decl = False
+        for j in range(i - 1, -1, -1):
+            t = trace[j]
+            if t == dstmt:
+                if seen_decl:
+                    return True
+                break
+            r = row_by_id.get(t, {})
+            if r.get("operation") == "variable_decl" and r.get("name") == name:
+                seen_decl = True
+    return False
 
 
 def parents(unit, rows):
@@ -263,6 +310,8 @@ def replay_batch(job):
 
     class Fixed:
         ext = gen_cf.DU_RENDERERS[lang].ext
+        entry = getattr(gen_cf.DU_RENDERERS[lang], "entry", "main")
+        ret_none = getattr(gen_cf.DU_RENDERERS[lang], "ret_none", None)
 
         def render(self, sk):
             return case["src"]
@@ -285,11 +334,16 @@ def main():
     from lib import gen_cf
     chk = common.Check(PROP, rule=(
         "intraprocedural def/use skeletons (assignments and uses over 3 variables inside every nesting of if/else, while, "
-        "counted for, for-in, do-while, break, continue, early return), Python and JavaScript, with and without --enable-p2; "
+        "counted for, for-in, do-while, break, continue, early return), Python, JavaScript, TypeScript, PHP and Go, with and without --enable-p2; "
         "decision vectors enumerated with loops taken 0 or 1 times; distinct_nontrivial = distinct (statement, variable, "
         "defining statement) use events of real executions that were looked up in the recorded in-sets"))
     thorough = chk.tier == "thorough"
     rp = os.environ.get("VERIF_REPLAY")
+    global LANGS
+    if os.environ.get("VERIF_C06_LANGS") and not rp:
+        # development aid: a run restricted to some frontends can fail, never hold
+        LANGS = [x for x in LANGS if x in os.environ["VERIF_C06_LANGS"].split(",")]
+        chk.note_inconclusive(f"restricted to {LANGS} by VERIF_C06_LANGS")
     jobs = []
     rng = random.Random(chk.seed)
     samples = []
@@ -299,8 +353,8 @@ def main():
         jobs.append((case["lang"], "replay", None, bool(case.get("enable_p2"))))
     else:
         for lang in LANGS:
-            only = tuple(k for k in KINDS if not (lang == "python" and k == "dowhile"))
-            n = 300 if not thorough else 4000
+            only = tuple(k for k in KINDS if not (lang == "python" and k == "dowhile") and k in (gen_cf.LANG_KINDS.get(lang) or KINDS))
+            n = N_PROGRAMS[lang][1 if thorough else 0]
             base = rng.randrange(1 << 30)
             sks = []
             for i in range(n):
@@ -309,7 +363,7 @@ def main():
                 sks.append(s)
             items = [(s.label, s.body, s.domains) for s in sks]
             for k in range(0, len(items), BATCH):
-                jobs.append((lang, f"{lang[:2]}{k // BATCH}", items[k:k + BATCH], (k // BATCH) % 3 == 2))
+                jobs.append((lang, f"{lang}{k // BATCH}", items[k:k + BATCH], (k // BATCH) % 3 == 2))
             samples.append({"lang": lang, "program": gen_cf.DU_RENDERERS[lang]().render(sks[1]), "decision_domains": sks[1].domains})
     for r in forkpool.run_jobs(analyse_batch if not rp else replay_batch, jobs, timeout=1800, tag="c06"):
         if r.status != "ok":
@@ -330,6 +384,8 @@ def main():
         chk.count("methods with loops (containment + dynamic soundness)", v["loopy_methods"])
         chk.count("statements visited more than once by the analysis", v["multi_visit_stmts"])
         chk.count(f"{lang}: executions validated against ground truth", v["validated"])
+        chk.count(f"{lang}: dynamic use events looked up", v["uses_checked"])
+        chk.count(f"{lang}: programs analysed", v["programs"])
         chk.count(f"{lang}: executions not used", v["unvalidated"])
         chk.count("methods the analysis never reached", v["methods_not_analysed"])
         if v["p2"]:
@@ -346,6 +402,9 @@ def main():
         chk.require("loop-free methods (equality demanded)", 50)
         chk.require("methods with loops (containment + dynamic soundness)", 100)
         chk.require("statements visited more than once by the analysis", 100)
+        for lang in LANGS:
+            chk.require(f"{lang}: executions validated against ground truth", 500)
+            chk.require(f"{lang}: dynamic use events looked up", 800)
     else:
         chk.nontrivial_case("replay-a"); chk.nontrivial_case("replay-b")
     for s in samples:
@@ -354,7 +413,9 @@ def main():
         "the set 'treated as reaching' at a statement is the union over all visits of in_symbol_bits (the persisted table keeps only the last visit)",
         "definition sites are lian's own (variable_decl, parameter_decl and loop variables count as definitions)",
         "precision is judged on lian's own CFG and definition sets, so CFG or def-use extraction faults are C04/C05's business, not this check's",
-        "executions are used only when CPython/node agree with the reference executor",
+        "executions are used only when the ground-truth engine agrees with the reference executor on outputs and return value "
+        "(CPython for Python; node on the analysed text for JavaScript and TypeScript; node on the JavaScript rendering of the same "
+        "skeleton and decision vector for PHP and Go, which have no runtime here)",
     ]
     sys.exit(chk.finish())
 
